@@ -1,1 +1,17 @@
-fn main(){}
+//! E4: network adversaries over scripted transports, through the `verif` facade of the network crate.
+mod c13;
+mod transport;
+
+use vcommon::{Args, Report};
+
+fn main() {
+    let args = Args::parse();
+    vcommon::install_quiet_panic_hook();
+    let mut rep = Report::new(&args);
+    let mode = args.extra.get("mode").cloned().unwrap_or_default();
+    match (args.prop.as_str(), mode.as_str()) {
+        ("C13", _) => c13::run(&args, &mut rep),
+        (p, m) => panic!("unknown property/mode {p}/{m}"),
+    }
+    std::process::exit(rep.finish());
+}
